@@ -419,10 +419,12 @@ func (V *Verifier) checkProperty(prop string, verbose bool, t0 time.Time) int {
 			nCovered++
 		}
 	}
-	var samples []interface{}
+	samples := []interface{}{}
+	want := 0 // index from which the next sample is taken: the first proper obligation at or after every fifth of the list
 	for i, o := range obligs {
-		if i%(len(obligs)/5+1) == 0 && !o.Vacuity {
+		if i >= want && !o.Vacuity {
 			samples = append(samples, map[string]interface{}{"obligation": o.Name, "kind": o.Kind, "clause": o.Clause, "status": o.Status, "backend": o.Backend, "smt_bytes": o.Bytes, "time_s": round2(o.Time)})
+			want = (i/(len(obligs)/5+1) + 1) * (len(obligs)/5 + 1)
 		}
 	}
 	rc := 0
